@@ -1,5 +1,5 @@
 SPECIFICATION Spec
-CONSTANTS DurSet = {0, 1, 3}  TargetSet = {0, 1, 3}  MaxStages = 2  MaxT = 7
+CONSTANTS DurSet = {0, 1, 3}  TargetSet <- MC_Targets_A  MaxStages = 2  MaxT = 7
 INVARIANTS ZeroAfterEnd WithinTargets
 PROPERTIES CursorMonotone
 CHECK_DEADLOCK FALSE
